@@ -35,26 +35,37 @@ MOVE_NAMES = {"f", "h", "k", "g"}
 def scopes(tier):
     q = tier == "quick"
 
-    def sc(worlds, forms, imports, uses, stmts, actions, qforms=None, **kw):
+    def sc(worlds, forms, imports, uses, stmts, actions, qforms=None, qsize=None, **kw):
         if q:
             forms = qforms or forms
+            if qsize:
+                imports, uses, stmts = qsize
         return pm.scope(actions, worlds, forms, imports, uses, stmts, DefNames=MOVE_NAMES, **kw)
 
     mg = ("MoveGlobal",)
     rl = ("MoveModule", "RenameModule", "ToPackage")
+    one = (1, 1, 2)
     return [
         ("move", sc("WorldsMove", "import,importas,from,fromas,star", 2, 1, 3, mg, qforms="import,from,star")),
-        ("movepkg", sc("WorldsMovePkg", "import,importas,from,fromas,rel", 2, 1, 3, mg, qforms="import,from,rel")),
-        ("reloc", sc("WorldsReloc", "import,importas,from,fromas,rel", 2, 1, 3, rl, qforms="import,from,rel")),
+        ("movepkg", sc("WorldsMovePkg", "import,importas,from,fromas,rel", 2, 1, 3, mg, qforms="import,from,rel",
+                       qsize=one)),
+        ("reloc", sc("WorldsReloc", "import,importas,from,fromas,rel", 2, 1, 3, rl, qforms="import,importas,from,rel",
+                     qsize=one)),
         ("relocinit", sc("WorldsRelocInit", "import,importas,from,fromas", 2, 1, 3, rl, qforms="import,from")),
-        ("reexport", sc("WorldsMove", "import,from,star", 2, 1, 3, mg, qforms="from,star", features=("reexport",))),
-        ("rootref", sc("WorldsRelocInit", "import,from", 2, 1, 3, rl, features=("rootref",))),
-        ("relmoved", sc("WorldsRelIn", "rel,from", 2, 1, 3, mg + rl, qforms="rel", features=("relmoved",))),
+        ("reexport", sc("WorldsMove", "import,from,star", 2, 1, 3, mg, qforms="from,star", qsize=one,
+                        features=("reexport",))),
+        ("rootref", sc("WorldsRelocInit", "import,from", 2, 1, 3, rl, qsize=one, features=("rootref",))),
+        ("asmoved", sc("WorldsAsMoved", "from,fromas", 2, 1, 3, mg + rl, qforms="fromas", qsize=one,
+                       features=("asmoved",))),
+        ("relmoved", sc("WorldsRelIn", "rel,from", 2, 1, 3, mg + rl, qforms="rel", qsize=one,
+                        features=("relmoved",))),
     ]
 
 
 def quick_limit(name):
-    return 150
+    """the quick tier replays every program of at most two statements and, per scope, this many
+    larger ones (seeded)"""
+    return 60
 
 
 def act_key(act):
@@ -160,6 +171,8 @@ def replay_program(item):
                 out["machinery"] = detail
                 return out
             out["counts"][status] = out["counts"].get(status, 0) + 1
+            ba = out.setdefault("by_action", {}).setdefault(act["name"], {})
+            ba[status] = ba.get(status, 0) + 1
             fails = []
             files1 = None
             if status == "crash":
@@ -226,7 +239,7 @@ def main(tier):
         ],
         rule="one request = (program enumerated by TLC, legal move/rename request of the spec); non-trivial "
              "program = rope changed the project for at least one request",
-        env_prefix="C05")
+        env_prefix="C05", small_all=lambda name: True)
 
 
 if __name__ == "__main__":
